@@ -258,7 +258,7 @@ func OpenReadableWritable(rw ReaderAtWriterAt, roots []cid.Cid, opts ...carv2.Op
 	if err != nil {
 		return nil, err
 	}
-	if err := store.ResumableVersion(rs, sc.opts.WriteAsCarV1); err != nil {
+	if err := store.ResumableVersion(rs, sc.opts.WriteAsCarV1, opts...); err != nil {
 		return nil, err
 	}
 	if err := store.Resume(
